@@ -44,17 +44,23 @@ theorem comp_allrec {kinds} (hk : AllRec kinds) (p : PS) (d d' : Bool) (v v' : N
   rw [hk i] at h ⊢; exact h
 
 
+/-- in a pool of recording processors the component invariant is: kind and `n = 0` -/
+theorem comp_recd {kinds} {st : St} {r : Spec.TP.Ref} (hk : AllRec kinds) (h : Inv kinds st r) (i : Nat) :
+    (st.pool i).kind = .recd ∧ (st.pool i).cnt.n = 0 := by
+  have hc := h.comp i
+  rw [hk i] at hc
+  simp only [CompInvR, CompInv] at hc
+  exact hc
+
 theorem or_none (x : Spec.Fails) : x.or { a := false } = x := by
   cases x; simp [Spec.Fails.or]
 
-theorem trigger_end (m : Spec.TP.Mem) (j : Nat) : trigger m (.end_ j) = false := rfl
-
 /-- an ordinary op inside a gated script -/
-theorem plain_case {kinds g gr} (o : TP.Op) (h : GInv kinds g gr) (hf : trigger gr.ref.mem o = false) :
+theorem plain_case {kinds g gr} (o : TP.Op) (h : GInv kinds g gr) :
     GInv kinds { g with st := (step g.st o).1 } { gr with ref := Spec.TP.refStep gr.ref o (step g.st o).2 } ∧
     (Spec.TP.checkStep kinds gr.ref o (snapOf g.st) (snapOf (step g.st o).1) (step g.st o).2).or { a := false } =
       Spec.Fails.none := by
-  obtain ⟨h1, h2⟩ := step_inv o h.inv hf
+  obtain ⟨h1, h2⟩ := step_inv o h.inv
   exact ⟨⟨h1, h.fly⟩, by rw [or_none]; exact h2⟩
 
 
@@ -65,13 +71,12 @@ theorem deliver_part {kinds} {st : St} {r : Spec.TP.Ref} (hk : AllRec kinds) (h 
       (Spec.TP.refStep r (.end_ j) .none) ∧
     (∀ i, (endAll st.pool l1 i).cnt = { (st.pool i).cnt with e := (st.pool i).cnt.e + (ids l1).count i }) ∧
     (∀ i, (ids l1).count i + (ids l2).count i = r.mem.mult i) ∧ (∀ i, (st.pool i).cnt.n = 0) := by
-  have hkind : ∀ i, (st.pool i).kind = .recd := fun i => by rw [(h.comp i).1, hk i]
-  have hn : ∀ i, (st.pool i).cnt.n = 0 := fun i => by
-    have := (h.comp i).2; rw [hk i] at this; exact this
+  have hkind : ∀ i, (st.pool i).kind = .recd := fun i => (comp_recd hk h i).1
+  have hn : ∀ i, (st.pool i).cnt.n = 0 := fun i => (comp_recd hk h i).2
   have hcnt : ∀ i, (endAll st.pool l1 i).cnt =
       { (st.pool i).cnt with e := (st.pool i).cnt.e + (ids l1).count i } := fun i => by
     rw [endAll_recd _ _ _ (hkind i)]
-  refine ⟨⟨h.shut, h.mult, h.tot, h.fresh, ?_, ?_, ?_, h.shutnil⟩, hcnt, ?_, hn⟩
+  refine ⟨⟨h.shut, h.mult, h.tot, h.fresh, ?_, ?_, ?_, h.shutnil, ?_⟩, hcnt, ?_, hn⟩
   · simp [Spec.TP.refStep, h.tr]
   · simp [Spec.TP.refStep, ← h.sp, hl]
   · intro i
@@ -81,30 +86,23 @@ theorem deliver_part {kinds} {st : St} {r : Spec.TP.Ref} (hk : AllRec kinds) (h 
       rw [endAll_recd _ _ _ (hkind i)]; exact hkind i
     · show (endAll st.pool l1 i).cnt.n = 0
       rw [hcnt i]; exact hn i
+  · intro i hr
+    have : r.raced i = true := by simpa [Spec.TP.refStep, Spec.TP.racedNow] using hr
+    simpa [Spec.TP.refStep, Spec.TP.memStep] using h.racedshut i this
   · intro i
     have := h.mult i
     rw [hp] at this
     simpa [ids, List.count_append] using this
 
-def gtrigger (m : Spec.TP.Mem) : GOp → Bool
-  | .op o => trigger m o
-  | _ => false
-
-def gmem (m : Spec.TP.Mem) : GOp → Spec.TP.Mem
-  | .op o => Spec.TP.memStep m o
-  | _ => m
-
-theorem gstep_inv {kinds g gr} (hk : AllRec kinds) (op : GOp) (h : GInv kinds g gr)
-    (hf : gtrigger gr.ref.mem op = false) :
+theorem gstep_inv {kinds g gr} (hk : AllRec kinds) (op : GOp) (h : GInv kinds g gr) :
     GInv kinds (gstep g op).1
       (gcheckStep kinds gr op (snapOf g.st) (snapOf (gstep g op).1.st) (gstep g op).2.1 (gstep g op).2.2).2 ∧
     (gcheckStep kinds gr op (snapOf g.st) (snapOf (gstep g op).1.st) (gstep g op).2.1 (gstep g op).2.2).1 =
       Spec.Fails.none := by
   cases op with
   | op o =>
-    simp only [gtrigger] at hf
     simp only [gstep, gcheckStep]
-    exact plain_case o h hf
+    exact plain_case o h
   | endg j k =>
     have hfly := h.fly
     cases hf1 : g.fly with
@@ -113,7 +111,7 @@ theorem gstep_inv {kinds g gr} (hk : AllRec kinds) (op : GOp) (h : GInv kinds g 
       | none => simp [hf1, ho] at hfly
       | some w =>
         simp only [gstep, gcheckStep, hf1, ho, Option.isSome_some, Bool.true_or, ↓reduceIte]
-        have := plain_case (.end_ j) h (trigger_end _ _)
+        have := plain_case (.end_ j) h
         simp only [hf1, ho] at this
         exact this
     | none =>
@@ -168,7 +166,7 @@ theorem gstep_inv {kinds g gr} (hk : AllRec kinds) (op : GOp) (h : GInv kinds g 
             simp only [gstep, hf1]
           rw [hg]
           simp only [gcheckStep, ho, Option.isSome_none, Bool.false_or, hne, ↓reduceIte]
-          have := plain_case (.end_ j) h (trigger_end _ _)
+          have := plain_case (.end_ j) h
           simp only [ho] at this
           exact this
   | rel =>
@@ -183,7 +181,7 @@ theorem gstep_inv {kinds g gr} (hk : AllRec kinds) (op : GOp) (h : GInv kinds g 
         simp only [gcheckStep, ho, Option.getD_none]
         refine ⟨⟨h.inv, by simp [hf1]⟩, ?_⟩
         have hn : ∀ i, (g.st.pool i).cnt.n = 0 := fun i => by
-          have := (h.inv.comp i).2; rw [hk i] at this; exact this
+          exact (comp_recd hk h.inv i).2
         simp only [Spec.Fails.none, Spec.Fails.mk.injEq, Bool.not_eq_false', Spec.allBelow, List.all_eq_true,
           Bool.and_eq_true]
         refine ⟨?_, ?_, ⟨⟨by decide, by decide⟩, ?_⟩, by decide⟩
@@ -198,14 +196,14 @@ theorem gstep_inv {kinds g gr} (hk : AllRec kinds) (op : GOp) (h : GInv kinds g 
         have hg : gstep g .rel = ({ st := { g.st with pool := endAll g.st.pool post }, fly := none }, .none, false) := by
           simp only [gstep, hf1]
         rw [hg]
-        have hkind : ∀ i, (g.st.pool i).kind = .recd := fun i => by rw [(h.inv.comp i).1, hk i]
+        have hkind : ∀ i, (g.st.pool i).kind = .recd := fun i => (comp_recd hk h.inv i).1
         have hn : ∀ i, (g.st.pool i).cnt.n = 0 := fun i => by
-          have := (h.inv.comp i).2; rw [hk i] at this; exact this
+          exact (comp_recd hk h.inv i).2
         have hcnt : ∀ i, (endAll g.st.pool post i).cnt =
             { (g.st.pool i).cnt with e := (g.st.pool i).cnt.e + (ids post).count i } := fun i => by
           rw [endAll_recd _ _ _ (hkind i)]
         simp only [gcheckStep, ho, Option.getD_some]
-        refine ⟨⟨⟨h.inv.shut, h.inv.mult, h.inv.tot, h.inv.fresh, h.inv.tr, h.inv.sp, ?_, h.inv.shutnil⟩, by simp⟩, ?_⟩
+        refine ⟨⟨⟨h.inv.shut, h.inv.mult, h.inv.tot, h.inv.fresh, h.inv.tr, h.inv.sp, ?_, h.inv.shutnil, h.inv.racedshut⟩, by simp⟩, ?_⟩
         · intro i
           rw [hk i]
           refine ⟨?_, ?_⟩
@@ -221,39 +219,17 @@ theorem gstep_inv {kinds g gr} (hk : AllRec kinds) (op : GOp) (h : GInv kinds g 
         · intro i _; simp [hk i, snapOf, hcnt i]
 
 
-theorem gref_mem (kinds : List PKind) (gr : GRef) (op : GOp) (prev cur : Nat → Cnt) (res : Res) (parked : Bool) :
-    (gcheckStep kinds gr op prev cur res parked).2.ref.mem = gmem gr.ref.mem op := by
-  cases op with
-  | op o => simp [gcheckStep, Spec.TP.refStep, gmem]
-  | endg j k =>
-    simp only [gcheckStep, gmem]
-    split <;> simp [Spec.TP.refStep, Spec.TP.memStep]
-  | rel => simp [gcheckStep, gmem]
-
 theorem gcheckFrom_none {kinds} (hk : AllRec kinds) (ops : List GOp) : ∀ (g : GSt) (gr : GRef), GInv kinds g gr →
-    Spec.TP.f26From gr.ref.mem (shadow ops) = false →
     gcheckFrom kinds gr (snapOf g.st) ops (grunFrom g ops) = Spec.Fails.none := by
   induction ops with
-  | nil => intro g gr _ _; rfl
+  | nil => intro g gr _; rfl
   | cons op rest ih =>
-    intro g gr h hf
-    have hf' : gtrigger gr.ref.mem op = false ∧ Spec.TP.f26From (gmem gr.ref.mem op) (shadow rest) = false := by
-      cases op with
-      | op o =>
-        simp only [shadow] at hf
-        rw [f26From_cons] at hf
-        simpa [Bool.or_eq_false_iff, gtrigger, gmem] using hf
-      | endg j k =>
-        simp only [shadow] at hf
-        rw [f26From_cons] at hf
-        simp only [Bool.or_eq_false_iff] at hf
-        exact ⟨rfl, hf.2⟩
-      | rel => exact ⟨rfl, hf⟩
-    obtain ⟨h1, h2⟩ := gstep_inv hk op h hf'.1
+    intro g gr h
+    obtain ⟨h1, h2⟩ := gstep_inv hk op h
     show (gcheckStep kinds gr op (snapOf g.st) (snapOf (gstep g op).1.st) (gstep g op).2.1 (gstep g op).2.2).1.or
       (gcheckFrom kinds (gcheckStep kinds gr op (snapOf g.st) (snapOf (gstep g op).1.st) (gstep g op).2.1
         (gstep g op).2.2).2 (snapOf (gstep g op).1.st) rest (grunFrom (gstep g op).1 rest)) = Spec.Fails.none
-    rw [h2, ih _ _ h1 (by rw [gref_mem]; exact hf'.2)]
+    rw [h2, ih _ _ h1]
     exact Fails.none_or_none
 
 theorem grunFrom_length (g : GSt) (ops : List GOp) : (grunFrom g ops).length = ops.length := by
